@@ -144,7 +144,9 @@ Record env := mkEnv {
   e_pen : list eF -> eF;
   e_newton : list (list eF) -> list eF -> option (list eF);
   e_broyden : list (list eF) -> list eF -> list eF -> list eF -> list eF -> list (list eF);
-  e_log10 : eF -> eF }.                  (* numpy.log10 (libm, not an IEEE basic operation: taken from the trace) *)
+  e_log10 : eF -> eF;
+  (* re.fullmatch(pattern, string) for the interned selector strings / tags / names *)
+  e_match : N -> N -> bool }.                  (* numpy.log10 (libm, not an IEEE basic operation: taken from the trace) *)
 
 Section Opt.
   Variable E : env.
@@ -356,11 +358,16 @@ Section Opt.
         end))
     end.
 
-  (* _set_state *)
+  (* _set_state(lst, state, entries, attr): entries None = nothing, True = all, False = all
+     with the opposite state; otherwise a list (a single int or str counts as a one-element
+     list) processed in order: an int sets lst[int]; a str is a REGULAR EXPRESSION and sets
+     every element whose attribute FULLY matches it (re.fullmatch(entry, getattr(vv, attr))),
+     where attr is the TAG for `target` and `vary` selectors and the NAME for `vary_name`
+     selectors.  Strings are interned; the verdict of re.fullmatch is the oracle e_match. *)
   Definition set_entry (attr : list N) (st : bool) (e : entry) (flags : list bool) : list bool :=
     match e with
     | EIdx i => set_nth i st flags
-    | EName t => map2_keep (fun a (b : bool) => if N.eqb a t then st else b) attr flags
+    | EName t => map2_keep (fun a (b : bool) => if e_match E t a then st else b) attr flags
     end.
   Definition set_flags (attr : list N) (st : bool) (e : option sel) (flags : list bool) : list bool :=
     match e with
